@@ -624,6 +624,20 @@ def get_binsize_all_bins(ctx):
         truth = [(c if p else T.not_(c)) for c, p in r.guards]
         one = [c for c in truth if c[0] == 'cmp' and c[1] == '==' and C(1) in (c[2], c[3])
                and any(x[0] == 'call' and x[1] == G('len') for x in (c[2], c[3]))]
+        if not one:
+            # the other spelling of "exactly one": the per-chromosome loop leaves with None as soon as a second width
+            # shows up (1 < len(S) inside the loop), and after the loop the collection is tested for being non-empty
+            def is_len(x):
+                return x[0] == 'call' and x[1] == G('len')
+            many = [e for e in returns(fa) if e.loops and e.value == T.NONE and any(
+                (c[0] == 'cmp' and c[1] == '<' and c[2] == C(1) and is_len(c[3])) or
+                (c[0] == 'cmp' and c[1] == '<=' and c[2] == C(2) and is_len(c[3])) or
+                (c[0] == 'cmp' and c[1] == '!=' and C(1) in (c[2], c[3]) and (is_len(c[2]) or is_len(c[3])))
+                for c in [(g if p else T.not_(g)) for g, p in e.guards])]
+            nonempty = [c for c in truth if (c[0] in ('call', 'mut', 'v') and 'set' in T.show(c)) or
+                        (c[0] == 'cmp' and c[1] == '!=' and C(0) in (c[2], c[3]) and (is_len(c[2]) or is_len(c[3])))]
+            if many and nonempty and not r.loops:
+                one = nonempty
         ctx.check(bool(one), R, f'return#{k}.single-width', ctx.where(fa, r), found=[T.show(c) for c, p in r.guards],
                   expected='returned only when exactly one distinct width was seen (len(sizes) == 1)')
     # the last bin of *every* chromosome takes part: the statement that folds it in runs on every
